@@ -115,6 +115,32 @@ impl<'a> Inst<'a> {
         }
     }
 
+    /// P13: a continuation captured under d pending frames of a non-tail recursion, stored, and
+    /// re-entered from later top-level forms (its saved stack may be deeper than any later form's)
+    fn deep_capture_reentry(&mut self) {
+        let id = self.id;
+        let d = *self.rng.pick(&[0i64, 2, 10, 30, 41, 42, 43, 44, 60, 100, 200]) + self.rng.range(0, 2);
+        let times = 1 + self.rng.usize(2);
+        self.tag("capture-under-pending-frames");
+        self.tag("re-entry-from-later-form");
+        self.tag(if d < 40 { "capture-depth<40" } else if d < 50 { "capture-depth-40-49" } else { "capture-depth>=50" });
+        self.emit(&format!("(define kd{id} #f) (define reed{id} 0)", id = id));
+        self.emit(&format!("(define (deep{id} n) (if (= n 0) (call/cc (lambda (k) (set! kd{id} k) 0)) (+ 1 (deep{id} (- n 1)))))", id = id));
+        self.emit(&format!("(define rd{id} (deep{id} {d}))", id = id, d = d));
+        self.emit(&format!("rd{}", id));
+        for t in 0..times {
+            let val = self.v();
+            let call = format!("(if (< reed{id} {lim}) (begin (set! reed{id} (+ reed{id} 1)) (kd{id} {val})) 'spent)", id = id, lim = t + 1, val = val);
+            if self.rng.bool() {
+                self.emit(&call);
+            } else {
+                self.emit(&format!("(list 'in (+ 1 (car (list {}))))", call));
+            }
+            self.emit(&format!("(list rd{id} reed{id})", id = id));
+        }
+        self.stored.push((format!("kd{}", id), format!("reed{}", id)));
+    }
+
     /// P3: generator built from two continuations
     fn generator(&mut self) {
         let id = self.id;
@@ -305,7 +331,8 @@ pub fn session(rng: &mut Rng) -> Session {
     let n = 1 + inst.rng.usize(4);
     for j in 0..n {
         inst.id = j + 1;
-        match inst.rng.usize(14) {
+        match inst.rng.usize(16) {
+            14 | 15 => inst.deep_capture_reentry(),
             0 | 1 | 2 => inst.operand_capture(),
             3 => inst.deep_escape(),
             4 => inst.generator(),
